@@ -16,6 +16,7 @@ mod capture;
 mod solve;
 mod syntax;
 mod reader;
+mod session;
 
 use serde_json::Value;
 
@@ -43,6 +44,7 @@ pub fn props_of(case: &Value) -> Vec<&'static str> {
         "mklist" | "rename" => lists::props_of(case),
         "solve" => solve::props_of(case),
         "reader" => reader::props_of(case),
+        "session" => session::props_of(case),
         t if t.starts_with("syn-") => syntax::props_of(case),
         _ => vec![],
     }
@@ -55,6 +57,7 @@ pub fn run_case(case: &Value) -> Vec<Obs> {
         "bip" => bip::replay(case),
         "solve" => solve::replay(case),
         "reader" => reader::replay(case),
+        "session" => session::replay(case),
         t if t.starts_with("syn-") => syntax::replay(case),
         "mklist" => lists::replay_mklist(case),
         "rename" => lists::replay_rename(case),
